@@ -48,7 +48,8 @@ def _make_heap(init):
         cd[p[0]] = p[1]
     D = ObjectMeta("D", (C,), cd, **kwargs)
     F = ObjectMeta("F", (C,), ObjectClassDict(), **drive.kwargs_of(_fixkw(init["init"]["fkw"])))
-    return {"E": E, "C": C, "D": D, "F": F}
+    N = drive.build_element(_fix(heap0["N"]))
+    return {"E": E, "C": C, "D": D, "F": F, "N": N}
 
 
 def _fixkw(kw):
@@ -196,7 +197,14 @@ def replay_history(task):
         if "propertyNames" in hkw:
             hkw["propertyNames"] = _fix(hkw["propertyNames"])
         H = ObjectMeta("H", (P,), hcd, **drive.kwargs_of(hkw))
-        rec["merges"] = [
+        # a child that re-opens additionalProperties explicitly
+        from statham.schema.elements import Object, String
+        from statham.schema.property import Property
+        Pf = Object.inline("Pf", properties={"a": Property(String())}, additionalProperties=False)
+        Gf = ObjectMeta("Gf", (Pf,), ObjectClassDict(), additionalProperties=True)
+        reopen = dict(parent=drive.project_element(Pf), child=drive.project_element(Gf),
+                      kw={"additionalPropertiesB": True}, props=[])
+        rec["merges"] = [reopen,
             dict(parent=drive.project_element(P), child=drive.project_element(G), kw={}, props=[]),
             dict(parent=drive.project_element(P), child=drive.project_element(H), kw=hkw,
                  props=[_fixp(p) for p in init["init"]["hprops"]])]
@@ -333,7 +341,7 @@ def sweep_state(st):
 
 # ------------------------------------------------------------------ driver
 def _heap_tla(h):
-    return "[" + ", ".join(f"{x} |-> {tlajson_to_tla(h[x])}" for x in ("E", "C", "D", "F")) + "]"
+    return "[" + ", ".join(f"{x} |-> {tlajson_to_tla(h[x])}" for x in ("E", "C", "D", "F", "N")) + "]"
 
 
 def _flags_tla(f):
@@ -424,7 +432,7 @@ def run(pid, tier, replay_file=None):
         ops[op["op"] + ":" + op["x"]] += 1
         # drift against the model's predicted heap / outcome
         try:
-            same_heap = all(drive.norm_elem(rec["post"][x]) == drive.norm_elem(_fix(st["heap"][x])) for x in ("E", "C", "D", "F"))
+            same_heap = all(drive.norm_elem(rec["post"][x]) == drive.norm_elem(_fix(st["heap"][x])) for x in ("E", "C", "D", "F", "N"))
         except Exception:  # noqa
             same_heap = False
         if not same_heap:
